@@ -250,7 +250,7 @@ func (s *sockets) dropTCP() {
 func (s *sockets) tcp(qw []byte, fresh bool) arrival {
 	a := arrival{}
 	stalled := false
-	for attempt := 0; attempt < 3; attempt++ {
+	for attempt := 0; attempt < 4; attempt++ {
 		if s.tc != nil {
 			// notice a connection the server's idle timer closed meanwhile
 		poll:
@@ -336,11 +336,18 @@ func (s *sockets) tcp(qw []byte, fresh bool) arrival {
 				a.note = "server refuses frames of <= 12 bytes before the handler"
 				return a
 			}
-			if reused && len(a.replies) == 0 {
+			if len(a.replies) == 0 && attempt < 3 {
+				// the server's idle timer (reused connection) or its 2 s first-read
+				// timer (client starved between connect and write) won a race with our
+				// write: timing, not behaviour - deliver again on a fresh connection.
+				// Only a close that repeats on every attempt is reported.
+				if !reused {
+					rep.Count("socket_redeliveries_tcp_closed_unhandled", 1)
+				}
 				a = arrival{}
-				continue // the idle timer won the race with our write
+				continue
 			}
-			a.note = "connection closed before the handler ran"
+			a.note = fmt.Sprintf("connection closed before the handler ran (on each of %d connections)", attempt+1)
 			return a
 		}
 		if ev.nilPayload {
@@ -380,6 +387,6 @@ func (s *sockets) tcp(qw []byte, fresh bool) arrival {
 		}
 		return a
 	}
-	a.harness = "tcp client could not deliver the frame on three connections"
+	a.harness = "tcp client could not deliver the frame on four connections"
 	return a
 }
